@@ -1126,6 +1126,17 @@ func c11AliasInPlace(info *types.Info, parents map[ast.Node]ast.Node, id *ast.Id
 					return true
 				}
 			}
+			// `_ = x` (the inliner's "parameter is used" marker, or a hand-written one): the value is discarded, nothing
+			// can reach the screen through it
+			if len(p.Lhs) == len(p.Rhs) {
+				for i, r := range p.Rhs {
+					if r == ast.Expr(u) {
+						if b, ok := p.Lhs[i].(*ast.Ident); ok && b.Name == "_" {
+							return true
+						}
+					}
+				}
+			}
 		}
 		okAll = false
 		return true
